@@ -302,6 +302,12 @@ func runC03(c *Ctx) {
 	c03Exhaustive(c, d)
 	c03Recursion(c, entry, d, rr)
 	c03Locks(c, rr)
+	// a wrong argument count is an error before the host function is called (shared with C11)
+	if h := d.Handlers["CallExpression"]; h != nil {
+		if br := c11Bridge(c, h, d); br != nil {
+			c11Arity(c, br, "C03.argument-count-is-error")
+		}
+	}
 	if reader := c.memberReader(d); reader != nil {
 		c.structFieldRules("C03.member-read-errors", reader, false)
 	} else {
